@@ -1,94 +1,7 @@
-// ---------------------------------------------------------------- U-class: imported AST types (regex_syntax 0.8) and the set-algebra semantics (C08)
-#[verifier::external_type_specification] pub struct ExPosition(Position);
-#[verifier::external_type_specification] pub struct ExSpan(Span);
-#[verifier::external_type_specification] pub struct ExHexLiteralKind(HexLiteralKind);
-#[verifier::external_type_specification] pub struct ExSpecialLiteralKind(SpecialLiteralKind);
-#[verifier::external_type_specification] pub struct ExLiteralKind(LiteralKind);
-#[verifier::external_type_specification] pub struct ExLiteral(Literal);
-#[verifier::external_type_specification] pub struct ExClassSetRange(ClassSetRange);
-#[verifier::external_type_specification] #[verifier::external_body] pub struct ExClassAscii(ClassAscii);
-#[verifier::external_type_specification] #[verifier::external_body] pub struct ExClassUnicode(ClassUnicode);
-#[verifier::external_type_specification] #[verifier::external_body] pub struct ExClassPerl(ClassPerl);
-#[verifier::external_type_specification] pub struct ExClassSetUnion(ClassSetUnion);
-#[verifier::external_type_specification] pub struct ExClassBracketed(ClassBracketed);
-#[verifier::external_type_specification] pub struct ExClassSet(ClassSet);
-#[verifier::external_type_specification] pub struct ExClassSetBinaryOp(ClassSetBinaryOp);
-#[verifier::external_type_specification] pub struct ExClassSetBinaryOpKind(ClassSetBinaryOpKind);
-#[verifier::external_type_specification] pub struct ExClassSetItem(ClassSetItem);
-
-// derived PartialEq of the AST's LiteralKind is structural
-pub assume_specification[ <LiteralKind as PartialEq>::eq ](a: &LiteralKind, b: &LiteralKind) -> (r: bool)
-    ensures r == (*a == *b);
-
-pub assume_specification<T: ?Sized + core::marker::MetaSized, A: std::alloc::Allocator>[ <std::boxed::Box<T, A> as std::convert::AsRef<T>>::as_ref ](b: &std::boxed::Box<T, A>) -> (r: &T)
-    ensures r == &**b;
-
+// ---------------------------------------------------------------- U-class: error type and the MatchFn wrapper
 #[verifier::external_body]
 pub struct ScnrError { _private: () }
 pub type Result<T> = std::result::Result<T, ScnrError>;
-
-pub type CharSet = spec_fn(char) -> bool;
-
-/// a named item "contributes exactly the set it denotes when used alone": the sets of \d \s \w, [:alpha:], \p{..}
-/// are uninterpreted leaves of the algebra
-pub uninterp spec fn named_ascii(a: ClassAscii) -> CharSet;
-pub uninterp spec fn named_unicode(a: ClassUnicode) -> CharSet;
-pub uninterp spec fn named_perl(a: ClassPerl) -> CharSet;
-
-/// a literal matches only itself; the verbatim `.` inside a class stands for "neither \n nor \r" (README)
-pub open spec fn lit_in(l: Literal, ch: char) -> bool {
-    if l.c == '.' && l.kind == LiteralKind::Verbatim { ch != '\n' && ch != '\r' } else { ch == l.c }
-}
-
-/// membership in a class set: the boolean combination of its operands
-pub open spec fn set_in(s: ClassSet, ch: char) -> bool
-    decreases s
-{
-    match s {
-        ClassSet::Item(i) => item_in(i, ch),
-        ClassSet::BinaryOp(op) => match op.kind {
-            ClassSetBinaryOpKind::Intersection => set_in(*op.lhs, ch) && set_in(*op.rhs, ch),
-            ClassSetBinaryOpKind::Difference => set_in(*op.lhs, ch) && !set_in(*op.rhs, ch),
-            ClassSetBinaryOpKind::SymmetricDifference => set_in(*op.lhs, ch) != set_in(*op.rhs, ch),
-        },
-    }
-}
-
-pub open spec fn item_in(i: ClassSetItem, ch: char) -> bool
-    decreases i
-{
-    match i {
-        ClassSetItem::Empty(_) => false,
-        ClassSetItem::Literal(l) => lit_in(l, ch),
-        ClassSetItem::Range(r) => r.start.c <= ch && ch <= r.end.c,
-        ClassSetItem::Ascii(a) => named_ascii(a)(ch),
-        ClassSetItem::Unicode(u) => named_unicode(u)(ch),
-        ClassSetItem::Perl(p) => named_perl(p)(ch),
-        ClassSetItem::Bracketed(b) => set_in(b.kind, ch) != b.negated,
-        ClassSetItem::Union(u) => union_in(u.items@, u.items@.len() as int, ch),
-    }
-}
-
-/// item k of the list contains ch
-pub open spec fn in_item(items: Seq<ClassSetItem>, k: int, ch: char) -> bool
-    decreases items, 0int
-{
-    0 <= k < items.len() && item_in(items[k], ch)
-}
-
-/// ch is in the union of the first n items
-pub open spec fn union_in(items: Seq<ClassSetItem>, n: int, ch: char) -> bool
-    decreases items, 1int
-{
-    exists|k: int| 0 <= #[trigger] idx(k) < n && in_item(items, k, ch)
-}
-
-/// (trigger helper: a non-recursive term to instantiate the witness with)
-pub open spec fn idx(k: int) -> int { k }
-
-pub open spec fn bracketed_in(b: ClassBracketed, ch: char) -> bool {
-    set_in(b.kind, ch) != b.negated
-}
 
 // ---- the MatchFn wrapper (3 lines around `Box<dyn Fn(char) -> bool>`) is TRUSTED and opaque here
 #[verifier::external_body]
@@ -125,3 +38,6 @@ impl MatchFn {
 pub fn verif_ascii_leaf(a: &ClassAscii) -> (r: MatchFn)
     ensures forall|c: char| #[trigger] r.sem()(c) == named_ascii(*a)(c)
 { unimplemented!() }
+
+// TRUSTED: construction of the error value (`unsupported!(format!(..))`)
+#[verifier::external_body] pub fn verif_unsupported() -> ScnrError { unimplemented!() }
